@@ -1,6 +1,7 @@
 import Thanos.Model.Hashring
 import Thanos.Lemmas.Hashring
 import Thanos.Lemmas.HashringWalk
+import Thanos.Lemmas.HashringPerm
 import Thanos.Generated.Facts
 /-
   C20 — Adding a node to a ketama ring only moves series onto the new node.
@@ -60,13 +61,13 @@ theorem pick_searchSuffix_without (rf x v : Nat) (ring' : List Sec) (hs : Sorted
     replication factor and every ring, the replicas after the addition are — apart from `x`
     itself — a prefix of the replicas before (same nodes, same order), and when `x` is not among
     them nothing changes at all.  Sizes are unbounded. -/
-theorem C20_add_node (lc : Bool) (ring' : List Sec) (zones : List Nat) (rf v x : Nat)
-    (hz : zones.length ≤ 1) (hs : SortedRing ring') (reps reps' : List Nat)
+theorem C20_add_node' (lc : Bool) (ring' : List Sec) (zones zones0 : List Nat) (rf v x : Nat)
+    (hz : zones.length ≤ 1) (hz0 : zones0.length ≤ 1) (hs : SortedRing ring') (reps reps' : List Nat)
     (hafter : replicasOfSeries lc ring' zones rf v = .ok reps')
-    (hbefore : replicasOfSeries lc (without x ring') zones rf v = .ok reps) :
+    (hbefore : replicasOfSeries lc (without x ring') zones0 rf v = .ok reps) :
     reps'.filter (· != x) <+: reps ∧ (x ∉ reps' → reps' = reps) := by
   have e' := replicasOfSeries_single lc ring' zones rf v hz reps' hafter
-  have e := replicasOfSeries_single lc (without x ring') zones rf v hz reps hbefore
+  have e := replicasOfSeries_single lc (without x ring') zones0 rf v hz0 reps hbefore
   rw [pick_searchSuffix_without rf x v ring' hs] at e
   constructor
   · have hp := pick_without_prefix rf x (searchSuffix v ring' ++ ring') []
@@ -79,6 +80,13 @@ theorem C20_add_node (lc : Bool) (ring' : List Sec) (zones : List Nat) (rf v x :
     have ht : taken (pick rf (searchSuffix v ring' ++ ring') []) x = false := by
       rw [taken_false_iff, ← e']; exact hx
     rw [e', e, ← pick_without_eq rf x _ [] ht]
+
+theorem C20_add_node (lc : Bool) (ring' : List Sec) (zones : List Nat) (rf v x : Nat)
+    (hz : zones.length ≤ 1) (hs : SortedRing ring') (reps reps' : List Nat)
+    (hafter : replicasOfSeries lc ring' zones rf v = .ok reps')
+    (hbefore : replicasOfSeries lc (without x ring') zones rf v = .ok reps) :
+    reps'.filter (· != x) <+: reps ∧ (x ∉ reps' → reps' = reps) :=
+  C20_add_node' lc ring' zones zones rf v x hz hz hs reps reps' hafter hbefore
 
 /-- Consequence in the words of the property: every replica after the addition is the new
     endpoint or was a replica of the series before; series never move between old nodes. -/
@@ -140,6 +148,124 @@ theorem table_search (lc : Bool) (ring : List Sec) (zones : List Nat) (rf v : Na
       | stuck => simp [ht] at h
       | hang => simp [ht] at h
       | panic => simp [ht] at h
+
+/-- `GetN(n)` of a built ring is the n-th element of `replicasOfSeries` — the statement that
+    connects the theorems about `replicasOfSeries` with what `ketamaHashring.GetN` answers. -/
+theorem getN_replicasOfSeries (lc : Bool) (eps : List Ep) (rf : Nat) (secs : List (Sec × List Nat)) (v n : Nat)
+    (hb : build lc eps rf = .ring secs) (hn : n < rf) (hne : mkRing eps ≠ []) :
+    ∃ reps, replicasOfSeries lc (mkRing eps) (zonesOf eps) rf v = .ok reps ∧
+      getN eps.length secs v n = ((reps[n]?).map Get.node).getD .panic := by
+  unfold build at hb
+  by_cases hlt : eps.length < rf
+  · simp [hlt] at hb
+  · simp only [hlt, if_false] at hb
+    have hge : ¬ eps.length ≤ n := by omega
+    have hts := table_search lc (mkRing eps) (zonesOf eps) rf v (mkRing eps) secs hb
+    unfold replicasOfSeries searchSuffix getN
+    simp only [hge, if_false]
+    cases hd : (mkRing eps).dropWhile (fun s => decide (s.hash < v)) with
+    | cons s l =>
+      rw [hd] at hts
+      obtain ⟨r, hs, hr⟩ := hts
+      refine ⟨r, hr, ?_⟩
+      simp only [hs]
+      cases r[n]? <;> rfl
+    | nil =>
+      rw [hd] at hts
+      -- the search finds nothing: GetN wraps to the first section, whose row is the loop run from the whole ring
+      cases hring : mkRing eps with
+      | nil => exact absurd hring hne
+      | cons a r =>
+        rw [hring] at hb
+        unfold table at hb
+        cases hr : replicasFor lc (a :: r) (zonesOf eps) rf (a :: r) with
+        | ok r0 =>
+          simp only [hr] at hb
+          cases ht : table lc (a :: r) (zonesOf eps) rf r with
+          | ring t =>
+            simp only [ht] at hb
+            injection hb with hb
+            subst hb
+            refine ⟨r0, rfl, ?_⟩
+            simp only [hts, List.head?_cons]
+            cases r0[n]? <;> rfl
+          | tooFew => simp [ht] at hb
+          | stuck => simp [ht] at hb
+          | hang => simp [ht] at hb
+          | panic => simp [ht] at hb
+        | stuck => simp [hr] at hb
+        | fuelOut => simp [hr] at hb
+        | oob => simp [hr] at hb
+
+/-! ### in the numbering of the endpoint lists (what the Go code works with) -/
+
+theorem zonesOf_eraseIdx_length (eps : List Ep) (pos : Nat) (hz : (zonesOf eps).length ≤ 1) :
+    (zonesOf (eps.eraseIdx pos)).length ≤ 1 := by
+  have hsub : ∀ z ∈ zonesOf (eps.eraseIdx pos), z ∈ zonesOf eps := by
+    intro z hzm
+    simp only [zonesOf, mem_dedup, List.mem_map] at hzm ⊢
+    obtain ⟨e, he, rfl⟩ := hzm
+    exact ⟨e, (List.eraseIdx_sublist eps pos).subset he, rfl⟩
+  have := List.Nodup.length_le_of_subset (nodup_dedup _) hsub
+  simp only [zonesOf] at *
+  omega
+
+/-- **C20 for endpoint lists.**  `eps` is the configured endpoint list after the addition, the
+    new endpoint at position `pos`; the list before is `eps.eraseIdx pos`, whose positions are
+    translated into positions of `eps` by `up` (positions from `pos` on move up by one — Go
+    renumbers `endpointIndex` by list position).  Without zones and without hash ties, for every
+    series hash and rf: apart from the new endpoint the replicas after the addition are a prefix
+    of the replicas before, and identical when the new endpoint is not among them. -/
+theorem C20_add_endpoint (lc : Bool) (eps : List Ep) (pos rf v : Nat) (hnt : NoTies eps)
+    (hz : (zonesOf eps).length ≤ 1) (reps reps' : List Nat)
+    (hafter : replicasOfSeries lc (mkRing eps) (zonesOf eps) rf v = .ok reps')
+    (hbefore : replicasOfSeries lc (mkRing (eps.eraseIdx pos)) (zonesOf (eps.eraseIdx pos)) rf v = .ok reps) :
+    reps'.filter (· != pos) <+: reps.map (up eps.length pos) ∧
+      (pos ∉ reps' → reps' = reps.map (up eps.length pos)) := by
+  have hring := mkRing_eraseIdx eps pos hnt
+  -- the ring before, renamed into the numbering of `eps`
+  have hinj : InjOn (up eps.length pos) (mkRing (eps.eraseIdx pos)) := by
+    intro s hs t ht he
+    have hlen : (eps.eraseIdx pos).length = (others eps.length pos).length := by
+      rw [eraseIdx_eq_filterMap]
+      have hall : ∀ i ∈ others eps.length pos, i < eps.length := fun i hi => (others_lt hi).1
+      generalize others eps.length pos = p at hall
+      induction p with
+      | nil => rfl
+      | cons a q ih =>
+        have hlt : a < eps.length := hall a (by simp)
+        have : eps[a]? = some (eps[a]'hlt) := List.getElem?_eq_getElem hlt
+        simp [this, ih (fun i hi => hall i (by simp [hi]))]
+    have hep : ∀ {x : Sec}, x ∈ mkRing (eps.eraseIdx pos) → x.ep < (eps.eraseIdx pos).length := by
+      intro x hx
+      obtain ⟨e, he', _, _⟩ := mem_mkRing.mp hx
+      rcases Nat.lt_or_ge x.ep (eps.eraseIdx pos).length with h' | h'
+      · exact h'
+      · rw [List.getElem?_eq_none h'] at he'; cases he'
+    have hs' := hep hs
+    have ht' := hep ht
+    exact up_inj eps.length pos (by omega) (by omega) he
+  have hren : replicasOfSeries lc (without pos (mkRing eps)) (zonesOf (eps.eraseIdx pos)) rf v =
+      .ok (reps.map (up eps.length pos)) := by
+    rw [← hring]
+    unfold replicasOfSeries replicasFor at hbefore ⊢
+    rw [searchSuffix_ren, List.length_map]
+    have hsub : ∀ s ∈ searchSuffix v (mkRing (eps.eraseIdx pos)), s ∈ mkRing (eps.eraseIdx pos) := by
+      intro s hs
+      unfold searchSuffix at hs
+      split at hs
+      · exact hs
+      · rename_i a l heq
+        have : s ∈ (mkRing (eps.eraseIdx pos)).dropWhile (fun s => decide (s.hash < v)) := by rw [heq]; exact hs
+        exact (List.dropWhile_sublist _).subset this
+    have := loop_ren lc (up eps.length pos) (mkRing (eps.eraseIdx pos)) (mkRing (eps.eraseIdx pos)).length
+      (zonesOf (eps.eraseIdx pos)) rf hinj (fuelBound (mkRing (eps.eraseIdx pos)).length rf)
+      (searchSuffix v (mkRing (eps.eraseIdx pos))) 0 [] hsub (by simp)
+    simp only [List.map_nil] at this
+    rw [this, hbefore]
+    rfl
+  exact C20_add_node' lc (mkRing eps) (zonesOf eps) (zonesOf (eps.eraseIdx pos)) rf v pos hz
+    (zonesOf_eraseIdx_length eps pos hz) (mkRing_sorted eps) _ reps' hafter hren
 
 /-! ### regenerated facts (shared with C18/C19: the loop shape and the search of GetN) -/
 
